@@ -130,6 +130,17 @@ def value_cases(tier):
                                       ["l7", cast(lit("2020-02-29", "date") | {"wrap": True}, "String")]], "literals")
 
 
+    # constant operands of every accepted pair (a literal has a `const` type: dialect special cases must still apply)
+    w = {"wrap": True}
+    ldt, ld = lit("2020-01-31T23:59:59", "datetime") | w, lit("2020-02-29", "date") | w
+    yield prog("a", "Date", DATES[:3], [["ld_date_to_dt", cast(ld, "Datetime")], ["ld_dt_to_date", cast(ldt, "Date")], ["ld_dt_to_date_str", cast(cast(ldt, "Date"), "String")],
+                                        ["ld_dt_to_str", cast(ldt, "String")], ["ld_date_to_str", cast(ld, "String")], ["ld_cmp", fn("eq", a, cast(ldt, "Date"))],
+                                        ["ld_back", cast(cast(ld, "Datetime"), "Date")], ["ld_year", fn("dt.year", cast(ldt, "Date"))]], "temporal literals")
+    yield prog("a", "Int64", [1, 2], [["lf_str", cast(lit(2.5) | w, "String")], ["lb_float", cast(lit(True) | w, "Float64")], ["ls_float", cast(lit("1.5") | w, "Float64")],
+                                      ["li_float", cast(lit(3) | w, "Float64")], ["lf_int8", cast(lit(-7.9) | w, "Int8")], ["ls_int_signed", cast(lit("-007") | w, "Int64")],
+                                      ["li_str_expr", fn("add", cast(lit(12) | w, "String"), lit("x"))], ["lnull_str", cast(lit(None) | w, "String")]], "numeric literals")
+
+
 def in_domain_variants(label, prog):
     """One program per conversion, restricted to the rows REF calls defined (an engine may legitimately
     raise on the others and would take the whole table with it), plus the full hostile table."""
